@@ -329,7 +329,7 @@ pub fn run(ctx: &Ctx) -> Report {
     rep.assume("void elements are exempt from inner==outer (they have no end tag)");
     report_known(ctx, &mut rep, &|v| replay(&ctx.strict_clone(), v));
     run_regressions(ctx, &mut rep, &|v| replay(&ctx.strict_clone(), v));
-    let out = run_random(ctx.seed, ctx.tier.pick(150_000, 6_000_000), 1500, decode, check);
+    let out = run_random(ctx.seed, ctx.tier.pick(1_500_000, 20_000_000), 1500, decode, check);
     rep.absorb(out);
     for l in [
         "built tree: string needs escaping",
